@@ -66,7 +66,12 @@ def judge(o, rec=None, check_values=True, stats=None):
         return [Failure("%s|expected:%s|got:%s" % (o.sig, o.expect, got), sstr(o.result)[:300])]
     if o.status == "err":
         return [Failure("%s|raises:%s" % (o.sig, A.exc_name(o.result)), sstr(o.result)[:300])]
-    return A.compare(o.result, o.ref, o.arrays[0].shape, o.sig, check_values=check_values, stats=stats)
+    # single-precision inputs: results may be computed in float32 (unit round-off 6e-8), so the relative floor is wider
+    from fractions import Fraction
+
+    single = any(numpy.ma.getdata(a).dtype == numpy.float32 for a in o.arrays)
+    return A.compare(o.result, o.ref, o.arrays[0].shape, o.sig, check_values=check_values, stats=stats,
+                     floor=Fraction(1, 10 ** 5) if single else None)
 
 
 def result_equal(a, b, tol=0.0):
